@@ -549,7 +549,12 @@ class Prop:
             elif k in ("reg", "unreg"):
                 op["h"] = r.randrange(8)
             ops.append(op)
-        return {"prop": ID, "seed": seed, "config": {"nobj": nobj, "handlers": handlers},
+        return {"prop": ID, "seed": seed,
+                "config": {"nobj": nobj, "handlers": handlers,
+                           # some histories run under the library's default exception
+                           # handlers and with exceptions whose first argument is no string
+                           "default_handlers": c.random() < 0.3,
+                           "nonstr_args": c.random() < 0.4},
                 "ops": ops}
 
     # ------------------------------------------------------------------ running a twin
@@ -561,10 +566,16 @@ class Prop:
         from traits.observation import api as oapi
         env = Env(record=False, step_cap=self.STEP_CAP)
         w = World(trace["config"], env)
-        push_exception_handler(lambda o, n, old, new: w.routed.append(("legacy", n)),
-                               reraise_exceptions=False)
-        oapi.push_exception_handler(lambda ev: w.routed.append(("observe", None)),
-                                    reraise_exceptions=False)
+        default_handlers = bool(trace["config"].get("default_handlers"))
+        if default_handlers:
+            # the library's own (logging) exception handlers, with the log silenced
+            import logging
+            logging.disable(logging.CRITICAL)
+        else:
+            push_exception_handler(lambda o, n, old, new: w.routed.append(("legacy", n)),
+                                   reraise_exceptions=False)
+            oapi.push_exception_handler(lambda ev: w.routed.append(("observe", None)),
+                                        reraise_exceptions=False)
         recs = []
         try:
             ops = trace["ops"]
@@ -576,7 +587,9 @@ class Prop:
                 op = ops[i]
                 if inject is not None and inject[0] == i:
                     op = dict(op, env=[{"at": inject[1], "nth": inject[2], "do": "raise",
-                                        "exc": inject[3]}])
+                                        "exc": inject[3],
+                                        "args": "nonstr" if trace["config"].get("nonstr_args")
+                                        else None}])
                 else:
                     op = {a: b for a, b in op.items() if a != "env"}
                 env.begin_op(i, op)
@@ -591,8 +604,11 @@ class Prop:
                              "events_raw": list(w.events),
                              "fired": env.fired["raise"] > fired0, "routed": list(w.routed)})
         finally:
-            oapi.pop_exception_handler()
-            pop_exception_handler()
+            if default_handlers:
+                logging.disable(logging.NOTSET)
+            else:
+                oapi.pop_exception_handler()
+                pop_exception_handler()
             w.close()
         return recs, env
 
